@@ -1,6 +1,5 @@
 use super::Optimizer;
 use crate::prelude::Vector;
-use approx_eq::rel_diff;
 use reverse::*;
 
 /// Implements the Adam optimizer. See [Kingma and Ba 2014](https://arxiv.org/abs/1412.6980) for
@@ -124,7 +123,15 @@ impl Optimizer for Adam {
 
             if crate::statistics::max(
                 &(0..param_len)
-                    .map(|i| rel_diff(params[i].val(), prev_params[i].val()))
+                    .map(|i| {
+                        // relative change of the signed values: x -> -x is not convergence
+                        let (new, old) = (params[i].val(), prev_params[i].val());
+                        if new == old {
+                            0.
+                        } else {
+                            (new - old).abs() / f64::max(new.abs(), old.abs())
+                        }
+                    })
                     .collect::<Vec<_>>(),
             ) < f64::EPSILON
             {
